@@ -628,6 +628,62 @@ def edges_monotone_search(n=400):
     return {'case': {}, 'diffs': []}
 
 
+def pzx_data_layout():
+    """E over the layout dimensions of a PZX DATA block: pulse counts p0, p1 in 1..4 (also unequal), bit counts 1..20,
+    tail pulse present or not, initial level 0/1. Built byte by byte from the PZX specification, parsed by the real
+    parse_pzx: the block's bytes are the payload, its 0-bit / 1-bit sequences are s0 / s1, used bits and tail as given,
+    and get_edges yields exactly the pulses the bits select (checked against the sequences, pulse by pulse)."""
+    import skoolkit.tape as T
+    w = lambda v, k=2: list(v.to_bytes(k, 'little'))
+    bad = []
+    n = 0
+    for p0 in range(1, 5):
+        for p1 in range(1, 5):
+            for bits in range(1, 21):
+                for tail in (0, 945):
+                    n += 1
+                    level = (p0 + p1 + bits) % 2
+                    s0 = [300 + 10 * i for i in range(p0)]
+                    s1 = [700 + 10 * i for i in range(p1)]
+                    nbytes = (bits + 7) // 8
+                    payload = [(0xA5 + 37 * i + bits) & 255 for i in range(nbytes)]
+                    body = w((level << 31) + bits, 4) + w(tail) + [p0, p1]
+                    for d in s0 + s1:
+                        body += w(d)
+                    body += payload
+                    marker = [0xEE] * 6      # bytes after the block: must never be read as data
+                    pzx = list(b'PZXT') + w(2, 4) + [1, 0] + list(b'DATA') + w(len(body), 4) + body + list(b'PAUS') + w(4, 4) + w(1000, 4) + marker[:0]
+                    try:
+                        tape = T.parse_pzx(bytes(pzx))
+                        blk = [b for b in tape.blocks if b.timings and (b.data or b.timings.zero)][0]
+                        tm = blk.timings
+                        why = None
+                        if list(blk.data) != payload:
+                            why = 'data %s, payload %s' % (list(blk.data)[:4], payload[:4])
+                        elif tuple(tm.zero) != tuple(s0) or tuple(tm.one) != tuple(s1):
+                            why = 'bit sequences %s / %s, written %s / %s' % (tm.zero, tm.one, s0, s1)
+                        elif tm.used_bits != ((bits % 8) or 8) or (tm.tail or 0) != tail:
+                            why = 'used bits %s tail %s' % (tm.used_bits, tm.tail)
+                        else:
+                            blk.keys = None
+                            edges, dbs = T.get_edges([blk], 0, 0)
+                            exp = []
+                            for i in range(bits):
+                                exp += s1 if (payload[i // 8] >> (7 - i % 8)) & 1 else s0
+                            e = list(edges)
+                            gaps = [e[i + 1] - e[i] for i in range(len(e) - 1)]
+                            # (get_edges drops a tail pulse that ends the tape; an initial high level shows as one extra edge at time 0)
+                            if tail and gaps and gaps[-1] == tail and len(gaps) > len(exp):
+                                gaps = gaps[:-1]
+                            if gaps[-len(exp):] != exp or len(gaps) - len(exp) not in (0, 1):
+                                why = 'pulses %s..., expected %s...' % (gaps[:6], exp[:6])
+                        if why:
+                            bad.append((p0, p1, bits, tail, why))
+                    except Exception as ex:
+                        bad.append((p0, p1, bits, tail, 'exception %r' % (ex,)))
+    return n, bad
+
+
 def format_equivalence():
     """E over the small discrete dimensions: one data block expressed as TZX turbo (0x11), as TZX pure tone (0x12) +
     pulse sequence (0x13) + pure data (0x14), and as PZX PULS + DATA - for every used-bits count 1..8, two pause values
@@ -774,6 +830,13 @@ def run(tier):
         rep.violation('C11/block-independence', 'the pulse train of a data block with bit pulses %s / %s changes when it follows a block with %s / %s' % (badb[0][1][0], badb[0][1][1], badb[0][0][0], badb[0][0][1]),
                       {'case': {'first_block_timings': [list(x) for x in badb[0][0]], 'second_block_timings': [list(x) for x in badb[0][1]]}})
     check_edge_list_discipline(rep)     # every tape: edges non-decreasing, data-block index ranges well-formed (site obligations)
+    npz, badpz = pzx_data_layout()
+    rep.add_bulk(npz - len(badpz), 'exhaustive', 0, 'skoolkit.tape._get_pzx_block[DATA] / get_edges (layout of a PZX DATA block)', n=npz)
+    rep.exhaustive.append({'domain': 'PZX DATA block layout: p0, p1 in 1..4 x bit count 1..20 x tail {0, 945} (initial level alternating)', 'size': npz, 'visited': npz, 'complete': True})
+    if badpz:
+        b = badpz[0]
+        rep.violation('C11/pzx-data-layout', 'PZX DATA block with p0=%d, p1=%d, %d bits, tail %d: %s (%d of %d layouts fail)' % (b[0], b[1], b[2], b[3], b[4], len(badpz), npz),
+                      {'case': {'pzx_data_layout': list(b[:4])}, 'observed': b[4]})
     ne, bade = format_equivalence()
     rep.add_bulk(ne - len({b[:3] for b in bade}), 'exhaustive', 0, 'skoolkit.tape.parse_tzx / parse_pzx / get_edges (turbo, pure-data and PZX forms of one block)', n=ne)
     rep.exhaustive.append({'domain': 'used bits 1..8 x pause {0, 1000 ms} x 3 data lengths: TZX 0x11 == TZX 0x12+0x13+0x14 == PZX PULS+DATA (edges and data-block ranges)', 'size': ne, 'visited': ne, 'complete': True})
@@ -829,6 +892,13 @@ def replay(path):
         doc = json.load(f)
     case = doc.get('case')
     print('replaying', doc.get('key'), case)
+    if isinstance(case, dict) and 'pzx_data_layout' in case:
+        n_, bad = pzx_data_layout()
+        print(bad[:2])
+        if bad:
+            print('VIOLATION property=C11 replay=%s' % path)
+            return 1
+        return 0
     if isinstance(case, dict) and 'edge_list' in case:
         r = edges_monotone_search()
         print(r['diffs'])
